@@ -584,7 +584,7 @@ Definition spec_case (c : case) : bool :=
                  forallb (fun p => match p with
                                    | PHit e => (t0 <? entry_end e) && (x * second <=? entry_end e - t0)
                                    | PFresh t => x <=? t
-                                   end) ((if hs then [neg] else []) ++ addrs)
+                                   end) (neg :: addrs)
                  && (if hs then x <=? mn else x <=? 600)) obs
   | CCas ops => cas_spec [] ops
   | CPrefetch claimed current cls rrs cut w0 w1 t0 t1 replaced after_id after =>
